@@ -156,4 +156,134 @@ def isSubtypeWith (lower : Ty) (supers : List Ty) (upper : Ty) : Bool :=
 def boundOk (targ : Ty) (supers : List Ty) (bound : Ty) : Bool :=
   sameType targ bound || isSubtypeWith targ supers bound
 
+/-! ## Abstract types as type arguments (`enforce_concrete_types`) -/
+
+/-- kind of a known toplevel: `true` = interface (`type_definition.is_none()`) -/
+abbrev KindTable := List ((Nat × Nat) × Bool)
+
+def isInterface : KindTable → Nat → Nat → Bool
+  | [], _, _ => false
+  | ((m, i), k) :: rest, m', i' => if m = m' ∧ i = i' then k else isInterface rest m' i'
+
+mutual
+/-- `validate_type_instantiation_customized(t, enforce_concrete_types)` restricted to its
+`IncompatibleTypeKind` errors (typing_context.rs:173-200): `true` = none reported. Type arguments
+and function parameter / return types are always validated with `enforce = true` (:178-180,186);
+only the root may be abstract when called through `…_allow_abstract_types`. -/
+def concreteOk (tab : KindTable) (enforce : Bool) : Ty → Bool
+  | .any _ => true
+  | .prim _ => true
+  | .generic _ => true
+  | .fn as r => concreteOkL tab as && concreteOk tab true r
+  | .nominal _ m i ts => concreteOkL tab ts && !(enforce && isInterface tab m i)
+def concreteOkL (tab : KindTable) : List Ty → Bool
+  | [] => true
+  | t :: ts => concreteOk tab true t && concreteOkL tab ts
+end
+
+mutual
+/-- Specification: nominal nodes strictly below the root position that must be concrete. -/
+def innerNodes : Ty → List (Nat × Nat)
+  | .any _ => []
+  | .prim _ => []
+  | .generic _ => []
+  | .fn as r => allNodesL as ++ allNodes r
+  | .nominal _ _ _ ts => allNodesL ts
+def allNodes : Ty → List (Nat × Nat)
+  | .any _ => []
+  | .prim _ => []
+  | .generic _ => []
+  | .fn as r => allNodesL as ++ allNodes r
+  | .nominal _ m i ts => (m, i) :: allNodesL ts
+def allNodesL : List Ty → List (Nat × Nat)
+  | [] => []
+  | t :: ts => allNodes t ++ allNodesL ts
+end
+
+/-! ## Instantiation of inherited signatures -/
+
+/-- `resolve_method_signature_recursive` (global_signature.rs:333-376), the signature it pushes
+for a method found in interface instance `I<targs>`: bounds and function type are substituted with
+`tparams ↦ targs` (zip). -/
+def instantiateSig (tparams : List Nat) (targs : List Ty) (m : MSig) : MSig :=
+  let σ : Subst := tparams.zip targs
+  { m with tparams := m.tparams.map (fun p => (p.1, p.2.map (subst σ))), ty := subst σ m.ty }
+
+/-- Conformance of a class against the members of `I<targs>`. -/
+def classConformsInst (tparams : List Nat) (targs : List Ty) (iface declared : List MSig) : Bool :=
+  classConforms (iface.map (instantiateSig tparams targs)) declared
+
+/-! ## Name resolution of classes, members, modules -/
+
+/-- The parser maps a class name to the module it was imported from, else to the current module
+(`class_source_map`, source_parser.rs); `check_class_id` then asks `class_exists`
+(main_checker.rs:267-290, typing_context.rs:229-242): the toplevel must exist *and* have a type
+definition (an interface is not a class value). Table: (module, name) ↦ has a type definition. -/
+def resolveClassModule (imports : List (Nat × Nat)) (cur name : Nat) : Nat :=
+  match imports with
+  | [] => cur
+  | (n, m) :: rest => if n = name then m else resolveClassModule rest cur name
+
+def classExists : List ((Nat × Nat) × Bool) → Nat → Nat → Bool
+  | [], _, _ => false
+  | ((m, i), hasDef) :: rest, m', i' => if m = m' ∧ i = i' then hasDef else classExists rest m' i'
+
+def classIdResolved (imports : List (Nat × Nat)) (cur : Nat) (tab : List ((Nat × Nat) × Bool)) (name : Nat) : Bool :=
+  classExists tab (resolveClassModule imports cur name) name
+
+/-- import of a module (main_checker.rs:1674-1684): it must be among the checked sources. -/
+def moduleResolved (modules : List Nat) (m : Nat) : Bool := modules.contains m
+
+/-- member access `e.name` (main_checker.rs:409-540): a visible method, else a visible field,
+else `CannotResolveMember`. -/
+def memberAccessResolved (cx : Ctx) (c : ClassRef) (methods fields : List (Nat × Bool)) (name : Nat) : Bool :=
+  memberResolved cx c methods name || fieldResolved cx c fields name
+
+/-! ## Transitive super types with cycle detection -/
+
+structure Decl where
+  key : Nat × Nat
+  tparams : List Nat
+  supers : List Ty
+
+def findDecl : List Decl → Nat × Nat → Option Decl
+  | [], _ => none
+  | d :: ds, k => if d.key = k then some d else findDecl ds k
+
+def keyOf : Ty → Option (Nat × Nat)
+  | .nominal _ m i _ => some (m, i)
+  | _ => none
+
+def targsOf : Ty → List Ty
+  | .nominal _ _ _ ts => ts
+  | _ => []
+
+/-- accumulated result: (`collector.types`, `collector.is_cyclic`, fuel ran out) -/
+abbrev SupAcc := List Ty × Bool × Bool
+
+/-- `resolve_all_transitive_super_types_recursive` (global_signature.rs:239-268). `path` is the
+`visited` set, which holds exactly the keys on the current recursion path (inserted on entry,
+removed on exit). The recursion depth is bounded by the number of declared toplevels + 1 (a path has
+distinct keys, all but the last declared); the model carries that bound as `fuel` and records
+exhaustion in the third component (the driver starts with `table.length + 2`). -/
+def resolveSupersF (tab : List Decl) : Nat → List (Nat × Nat) → Ty → SupAcc → SupAcc
+  | 0, _, _, acc => (acc.1, acc.2.1, true)
+  | fuel + 1, path, t, acc =>
+    match keyOf t with
+    | none => acc
+    | some k =>
+      if path.contains k then (acc.1, true, acc.2.2)
+      else
+        match findDecl tab k with
+        | none => acc
+        | some d =>
+          (d.supers.map (subst (d.tparams.zip (targsOf t)))).foldl
+            (fun a s =>
+              let r := resolveSupersF tab fuel (k :: path) s a
+              (r.1 ++ [s], r.2.1, r.2.2))
+            acc
+
+def resolveSupers (tab : List Decl) (t : Ty) : SupAcc :=
+  resolveSupersF tab (tab.length + 2) [] t ([], false, false)
+
 end SamVerif.Gates
